@@ -20,7 +20,7 @@ RULE = ('configuration sweep: a drawn sample of molecule specs (corpus, curated,
         'in fresh worker interpreters started with PYTHONHASHSEED in {0, 1, 4294967295, 3 seed-derived values}; every worker '
         'computes canonical string, atom orderings, ring set, fingerprints, ordered match lists of 12 SMARTS, canonicalize() '
         'result, pack bytes, components and mapped SMILES four ways (uncached, cached, on a copy, on a second fresh object in the '
-        'opposite order); all records must be equal within and across workers. non-trivial = molecule has Morgan ties or >= 2 '
+        'normalisations on cold and warmed objects; a molecule\'s values after serving as a reaction member and after a rejected transaction that read the edited state. opposite order); all records must be equal within and across workers. non-trivial = molecule has Morgan ties or >= 2 '
         'rings; distinct by canonical string')
 ASSUMPTIONS = ['hash(molecule) is excluded: it hashes a string and legitimately varies with the hash seed',
                'only dependence observable within 6 hash seeds on this platform is detectable',
